@@ -827,6 +827,53 @@ def rule_lfda(repo, rep):
       break
 
 
+def rule_lfda_qr_order(repo, rep):
+  R = 'R-FORM:lfda-orthonormalisation-after-ordering'
+  rep.rule(R, 'Gram-Schmidt / QR keeps the span of the first j columns for '
+           'every j, so it must be given the eigenvectors already selected '
+           'in decreasing order of eigenvalue: the argument of every qr '
+           'call in LFDA.fit resolves to <vectors>[:, <decreasing prefix '
+           'selection>]')
+  c = repo.get_class('LFDA')
+  f = repo.resolve_method(c, 'fit')
+  body = f.node.body
+  pm = astutil.parents(f.node)
+  n = 0
+  for call in astutil.calls_in(f.node):
+    d = repo.dotted(f.module, call.func) or ''
+    if not (d.endswith('linalg.qr') and call.args):
+      continue
+    n += 1
+    top = astutil.stmt_of(f.node, call)
+    while top not in body and top in pm:
+      top = pm[top]
+    arg = astutil.unfold(call.args[0], body, top) if top in body \
+        else call.args[0]
+    key = 'LFDA.fit:qr-argument'
+    sel = None
+    if isinstance(arg, ast.Subscript) and isinstance(arg.slice, ast.Tuple) \
+            and len(arg.slice.elts) == 2:
+      sel = _selection_kind(repo, f, arg.slice.elts[1])
+    if sel is not None and sel[0] == 'largest':
+      rep.derived(R, key, site(f, call))
+    elif sel is not None:
+      rep.refuted(R, key, site(f, call), 'QR is applied to the eigenvectors '
+                  'of the smallest eigenvalues')
+    elif isinstance(arg, ast.Name) or (
+            isinstance(arg, ast.Subscript) and isinstance(
+                arg.value, ast.Call)) or isinstance(arg, ast.Call):
+      # the raw solver output (a name bound by tuple assignment, or a call)
+      rep.refuted(R, key, site(f, call), 'QR is applied to %s before the '
+                  'eigenvectors are put in decreasing order of eigenvalue: '
+                  'the first orthonormal direction is then not the leading '
+                  'eigenvector' % ast.unparse(arg)[:60])
+    else:
+      rep.unknown(R, key, site(f, call), 'argument %s'
+                  % ast.unparse(arg)[:60])
+  if n == 0:
+    rep.unknown(R, 'LFDA.fit:qr-argument', site(f), 'no qr call found')
+
+
 # ------------------------------------------------ LFDA scatter accumulation
 from ..ratfunc import Rat, LinM, eval_expr
 
@@ -1964,6 +2011,7 @@ def check(repo, rep, tier):
   rule_rca_whitening(repo, rep)
   rule_rca_projection(repo, rep)
   rule_lfda(repo, rep)
+  rule_lfda_qr_order(repo, rep)
   rule_lfda_scatter(repo, rep)
   rule_lfda_affinity(repo, rep)
   rule_lfda_solver(repo, rep)
